@@ -18,7 +18,8 @@ HEADS = [('select', 'SELECT', ' 1'), ('insert', 'INSERT', ' into t values (1)'),
          ('with recursive r (n) as (select 1 union all select n + 1 from r) update', 'UPDATE', ' t set a = 1'), ('replace', 'REPLACE', ' into t values (1)'), ('truncate', 'TRUNCATE', ' table t'),
          ('commit', 'COMMIT', ''), ('foo', 'UNKNOWN', ' bar'), ('(select 1)', 'UNKNOWN', ''), ('values', 'UNKNOWN', ' (1)'),
          ('explain', 'UNKNOWN', ' select 1'), ('begin', 'UNKNOWN', '')]
-PREFIX = ['', ' ', '\n\t', '-- c\n', '/* c */ ', '/*+ h */', ' -- a\n /* b */\n', '\r\n']
+PREFIX = ['', ' ', '\n\t', '-- c\n', '/* c */ ', '/*+ h */', ' -- a\n /* b */\n', '\r\n', '/* x **/ ', '/***/', '# c\n', "-- don't\n",
+          '/* a\n * b\n **/\n']
 CONT = ['', ';', '\n', ' -- t']
 
 
@@ -68,9 +69,59 @@ def extra_traces(ctx, rng, quick, start_id):
     return traces, meta
 
 
+def pair_traces(ctx, rng, quick, start_id):
+    """every DML/DDL word of the keyword tables (type read off the working tree's lexer, as KeywordTable.tla does)
+    x every word of the tables as the FOLLOWING word: "the answer ignores everything after the leading keyword"."""
+    import sqlparse
+    from sqlparse import lexer, tokens as T
+    from .. import extract
+    words = sorted(extract.all_keyword_words())
+    heads = []
+    for w in words:
+        toks = list(lexer.tokenize(w))
+        if len(toks) == 1 and (toks[0][0] in T.Keyword.DML or toks[0][0] in T.Keyword.DDL):
+            heads.append(w)
+    ctx.cov['dml_ddl_words'] = len(heads)
+    followers = words + ['foo', 't1', '1', "'s'", '(1)', '*', '"q"', '@v', '#t']
+    traces, meta = [], []
+    for h in heads:
+        for f in followers:
+            if quick and rng.random() < 0.7:
+                continue
+            if (h.upper(), f.upper()) in (('CREATE', 'OR'),):
+                pass
+            hs = recase(h, rng.randrange(4), rng)
+            text = rng.choice(PREFIX) + hs + rng.choice([' ', '\n', '  ', '\t']) + recase(f, rng.randrange(3), rng) + rng.choice(CONT)
+            toks = [(tt, v) for tt, v in lexer.tokenize(text) if tt not in T.Whitespace and tt not in T.Comment]
+            # the pair may be ONE keyword token by the tables' own multi-word rules (none for DML/DDL heads but CREATE OR REPLACE)
+            exp = h.upper()
+            try:
+                st = sqlparse.parse(text)
+                got = st[0].get_type() if st else 'UNKNOWN'
+                exc = ''
+            except Exception as e:  # noqa
+                got, exc = '', type(e).__name__
+            tr = {'id': start_id + len(traces), 'text': cps(text), 'exc': exc, 'ids': [], 'wheres': [], 'lists': [], 'fns': [],
+                  'cases': [], 'cmps': [], 'tls': [], 'pars': [], 'stmts': [{'exp': exp, 'got': got, 'lead': cps(h), 'cte_comment': False}]}
+            traces.append(tr)
+            meta.append(text)
+            ctx.evals()
+            ctx.nontrivial((h, f))
+    return traces, meta
+
+
+_extra_heads = extra_traces
+
+
+def extra_traces(ctx, rng, quick, start_id):     # noqa: F811
+    t1, m1 = _extra_heads(ctx, rng, quick, start_id)
+    t2, m2 = pair_traces(ctx, rng, quick, start_id + len(t1))
+    return t1 + t2, m1 + m2
+
+
 RULE = ('get_type() of every statement of SqlGen.tla derivations (annotated type) and of a product of leading keywords x letter casings x inner '
         'whitespace of multi-word keywords x whitespace/comment/hint prefixes x continuations; TLC compares with the expected upper-cased keyword '
-        '(single blanks), the DML after the CTE list, or UNKNOWN; non-trivial = distinct (keyword, casing, prefix, continuation)')
+        '(single blanks), the DML after the CTE list, or UNKNOWN; plus every DML/DDL word of the keyword tables x every table word as the following word; non-trivial = distinct (keyword, casing, prefix, continuation)')
 
 
 def run(ctx):
